@@ -2074,6 +2074,106 @@ def _propagate_attr_and_thunk_temps(fn) -> int:
     return done
 
 
+def _stacks_to_saved_attributes(work: Repo) -> int:
+    """self._stack: list = []  (in __init__);   @property def cur(self): return self._stack[-1] if self._stack else D
+       ... self._stack.append(v) ... self._stack.pop() ...   (pushes and pops paired inside one method)
+       ->   self.cur = D;   ... saved = self.cur; self.cur = v ... self.cur = saved ...
+    A private stack that is only pushed, popped and looked at through a "top or default" property is a plain attribute
+    with its previous value saved in a local of the activation that pushed (the recursion stack holds the rest)."""
+    count = 0
+    for mod in work.modules.values():
+        for cls in [n for n in ast.walk(mod.tree) if isinstance(n, ast.ClassDef)]:
+            methods = [m for m in cls.body if isinstance(m, ast.FunctionDef)]
+            init = next((m for m in methods if m.name == "__init__"), None)
+            if init is None or not init.args.args:
+                continue
+            for prop in list(methods):
+                if [ast.unparse(d) for d in prop.decorator_list] != ["property"] or not prop.args.args:
+                    continue
+                sn = prop.args.args[0].arg
+                body = [st for st in prop.body if not (isinstance(st, ast.Expr) and isinstance(st.value, ast.Constant))]
+                if not (len(body) == 1 and isinstance(body[0], ast.Return) and isinstance(body[0].value, ast.IfExp)):
+                    continue
+                ie = body[0].value
+                if not (isinstance(ie.test, ast.Attribute) and isinstance(ie.test.value, ast.Name) and ie.test.value.id == sn and isinstance(ie.orelse, ast.Constant)
+                        and isinstance(ie.body, ast.Subscript) and ast.unparse(ie.body) == f"{sn}.{ie.test.attr}[-1]"):
+                    continue
+                stack, default, pname = ie.test.attr, ie.orelse, prop.name
+                # every other mention of the stack in the class: its creation in __init__, append / pop statements
+                uses = []
+                ok = True
+                for m in methods:
+                    if m is prop or not m.args.args:
+                        continue
+                    me = m.args.args[0].arg
+                    for x in ast.walk(m):
+                        if isinstance(x, ast.Attribute) and x.attr == stack and isinstance(x.value, ast.Name) and x.value.id == me:
+                            uses.append((m, x))
+                if any(isinstance(x, ast.Attribute) and x.attr == stack for n2 in ast.walk(mod.tree) if n2 is not cls and isinstance(n2, ast.ClassDef) for x in ast.walk(n2)):
+                    continue
+                init_stmt = None
+                plans: dict[str, list] = {}
+                for m, x in uses:
+                    par = parent_of(m, x)
+                    if m is init and isinstance(par, (ast.Assign, ast.AnnAssign)) and (par.targets[0] if isinstance(par, ast.Assign) else par.target) is x \
+                            and isinstance(par.value, ast.List) and not par.value.elts:
+                        init_stmt = par
+                        continue
+                    call = parent_of(m, par) if isinstance(par, ast.Attribute) and par.attr in ("append", "pop") else None
+                    stx = parent_of(m, call) if isinstance(call, ast.Call) and call.func is par else None
+                    if isinstance(stx, ast.Expr) and stx.value is call and ((par.attr == "append" and len(call.args) == 1) or (par.attr == "pop" and not call.args)):
+                        plans.setdefault(m.name, []).append((m, stx, par.attr, call))
+                    else:
+                        ok = False
+                if not ok or init_stmt is None or not plans:
+                    continue
+                for mname, ops in plans.items():
+                    ops.sort(key=lambda o: (getattr(o[1], "lineno", 0), getattr(o[1], "col_offset", 0)))
+                    depth = 0
+                    for _m, _st, kind, _c in ops:
+                        depth += 1 if kind == "append" else -1
+                        if depth < 0:
+                            ok = False
+                    if depth != 0:
+                        ok = False
+                if not ok:
+                    continue
+                # rewrite
+                for mname, ops in plans.items():
+                    open_: list[str] = []
+                    k = 0
+                    for m, stx, kind, call in ops:
+                        me = m.args.args[0].arg
+                        attr = lambda ctx_: ast.Attribute(value=ast.Name(id=me, ctx=ast.Load()), attr=pname, ctx=ctx_)  # noqa: E731
+                        if kind == "append":
+                            k += 1
+                            saved = f"__saved_{pname.strip('_')}_{k}"
+                            open_.append(saved)
+                            new = [ast.Assign(targets=[ast.Name(id=saved, ctx=ast.Store())], value=attr(ast.Load()), type_comment=None),
+                                   ast.Assign(targets=[attr(ast.Store())], value=call.args[0], type_comment=None)]
+                        else:
+                            saved = open_.pop()
+                            new = [ast.Assign(targets=[attr(ast.Store())], value=ast.Name(id=saved, ctx=ast.Load()), type_comment=None)]
+                        for holder in ast.walk(m):
+                            for fld in ("body", "orelse", "finalbody"):
+                                lst = getattr(holder, fld, None)
+                                if isinstance(lst, list) and stx in lst:
+                                    i = lst.index(stx)
+                                    lst[i:i + 1] = [ast.copy_location(n_, stx) for n_ in new]
+                ime = init.args.args[0].arg
+                repl = ast.Assign(targets=[ast.Attribute(value=ast.Name(id=ime, ctx=ast.Load()), attr=pname, ctx=ast.Store())], value=default, type_comment=None)
+                for holder in ast.walk(init):
+                    for fld in ("body", "orelse", "finalbody"):
+                        lst = getattr(holder, fld, None)
+                        if isinstance(lst, list) and init_stmt in lst:
+                            lst[lst.index(init_stmt)] = ast.copy_location(repl, init_stmt)
+                cls.body.remove(prop)
+                count += 1
+        if count:
+            ast.fix_missing_locations(mod.tree)
+    return count
+
+
 def _scalar_replace_records(repo: Repo, mod, fn) -> int:
     """fmt = _Opts(width=w, semantic=s) ... fmt.width ... fmt.semantic      ->   fmt__width = w; fmt__semantic = s ... fmt__width ...
     for a local that is bound once to a freshly built record of the package (dataclass / NamedTuple without custom
@@ -2229,6 +2329,10 @@ def build_inlined_repo(root=None, keep: set[str] | None = None) -> tuple[Repo, d
         if new is not None:
             fi.node.body = new.body
             changed += 1
+    try:
+        inl.stats["stacks_to_attributes"] = _stacks_to_saved_attributes(work)
+    except Exception:  # noqa: BLE001 - a normalisation that cannot be applied is simply not applied
+        pass
     # names the cross-module splices need: from <sibling> import <name>, after the docstring and the __future__ imports
     for mname, wants in inl.pending_imports.items():
         mod = work.modules.get(mname)
